@@ -16,6 +16,10 @@ import numpy as np
 from pynndescent import distances as D
 from pynndescent import sparse as S
 from harness import refmetrics as R
+import numba
+# two worker threads: the only parallel kernel reached from here (sinkhorn's K_from_cost, a few dozen
+# entries) costs ~85 ms per call in barrier waits with 16 threads on a loaded machine, 0.02 ms with 2
+numba.set_num_threads(min(2, numba.get_num_threads()))
 
 MAX_PER_KEY = 2
 UNION_RESTRICTED = {"jensen-shannon", "jensen_shannon", "symmetric-kl", "symmetric_kl", "symmetric_kullback_liebler"}
@@ -315,7 +319,7 @@ def names_in_both():
 def run(res, tier, seed, search):
     quick = tier == "quick"
     maxdim = 4 if quick else 5
-    nrand = 6 if quick else 120
+    nrand = 6 if quick else 300
     if search:
         nrand *= 3
     res.rule = ("per name in both metric tables: real sparse kernel on enc(x), enc(y) (both argument orders) vs real "
